@@ -6,7 +6,7 @@ d=/verif/seeded/$1; tier=$2; shift 2
 git -C /repo apply "$d/patch.diff" || { echo "patch does not apply"; exit 2; }
 for id in "$@"; do
   out=$(cd /verif && ./check $id --tier $tier 2>&1); rc=$?
-  echo "== $1 vs $id ($tier): exit=$rc $(echo "$out" | grep -c '^VIOLATION') violation lines"
+  echo "== $(basename $d) vs $id ($tier): exit=$rc $(echo "$out" | grep -c '^VIOLATION') violation lines"
   echo "$out" | grep -A1 '^VIOLATION' | head -4
 done
 git -C /repo checkout -- . 
